@@ -171,6 +171,25 @@ class ModelDriver:
             want = by_name.get(n, 0)
             if (self.hof(got) if got is not None else 0) != want:
                 bad.append({'lookup': 'name', 'key': n, 'want': want, 'got': self.hof(got) if got is not None else 0})
+        # ModelSM!LinkExists: "is there an association of this class joining a (left) and b (right)?" for every class and
+        # every ordered pair of live assets (the same predicate that rejects duplicates)
+        linked = set()
+        for a in exp['assocs']:
+            for x in a['l']:
+                for y in a['r']:
+                    linked.add((a['cls'], x, y))
+        inv = {v: k for k, v in self.cls_index.items()}
+        live = [self.objs[a['h']] for a in exp['assets'] if a['h'] in self.objs]
+        for ci, cname in inv.items():
+            for x in live:
+                for y in live:
+                    try:
+                        got = bool(m.association_exists_between_assets(cname, x, y))
+                    except Exception as e:
+                        got = 'raised ' + type(e).__name__
+                    want = (ci, self.hof(x), self.hof(y)) in linked
+                    if got != want:
+                        bad.append({'lookup': 'association_exists_between_assets', 'key': [cname, self.hof(x), self.hof(y)], 'want': want, 'got': got})
         for t in exp['atk']:
             got = m.get_attacker_by_id(t['id'])
             if got is None or self.hof(got) != t['h']:
